@@ -2,16 +2,17 @@ package sim
 
 import (
 	"context"
-	"net/http"
-	"os"
 	"errors"
 	"fmt"
 	"math/rand/v2"
+	"net/http"
+	"os"
 	"sort"
 	"sync"
 	"testing"
 	"testing/synctest"
 	"time"
+	"unsafe"
 
 	"github.com/DrmagicE/gmqtt"
 	"github.com/DrmagicE/gmqtt/config"
@@ -94,47 +95,66 @@ type World struct {
 	finalAt    time.Time
 	apiBusy    int
 
-	Faults   map[string]int
-	Probes   map[string]int
-	Viol     []Violation
+	Faults          map[string]int
+	Probes          map[string]int
+	Viol            []Violation
 	LeakedAfterStop []string
 	LeakedAfterCut  []string
-	EndErr   error
-	SimTime  time.Duration
-	aborted  bool
-	stopOps  int
-	obsBusy  bool
-	jumping  bool
+	EndErr          error
+	SimTime         time.Duration
+	aborted         bool
+	stopOps         int
+	obsBusy         bool
+	jumping         bool
 }
 
 // Now returns simulated time since the start of the run.
+//
+//go:norace
 func (w *World) Now() time.Duration { return time.Since(w.T0) }
 
 // Step returns the current global step.
+//
+//go:norace
 func (w *World) Step() int { return w.S.StepCnt }
 
 // Fault counts an injected fault that actually fired.
+//
+//go:norace
 func (w *World) Fault(kind string) {
+	simrt.RaceDisable() // simulator bookkeeping is invisible to the race detector
+	defer simrt.RaceEnable()
 	w.mu.Lock()
 	w.Faults[kind]++
 	w.mu.Unlock()
 }
 
 // Probe counts a reach probe.
+//
+//go:norace
 func (w *World) Probe(name string) {
+	simrt.RaceDisable() // simulator bookkeeping is invisible to the race detector
+	defer simrt.RaceEnable()
 	w.mu.Lock()
 	w.Probes[name]++
 	w.mu.Unlock()
 }
 
 // Violate records a violation found during the run.
+//
+//go:norace
 func (w *World) Violate(prop, clause, f string, a ...any) {
+	simrt.RaceDisable() // simulator bookkeeping is invisible to the race detector
+	defer simrt.RaceEnable()
 	w.mu.Lock()
 	w.Viol = append(w.Viol, Violation{Prop: prop, Clause: clause, Msg: fmt.Sprintf(f, a...)})
 	w.mu.Unlock()
 }
 
+//go:norace
 func (w *World) rec(r *Rec) *Rec {
+	simrt.RaceDisable() // simulator bookkeeping is invisible to the race detector
+	defer simrt.RaceEnable()
 	w.mu.Lock()
 	defer w.mu.Unlock()
 	if r.Step == 0 {
@@ -145,10 +165,13 @@ func (w *World) rec(r *Rec) *Rec {
 }
 
 // RecHook records a hook observation (called from broker tasks).
+//
+//go:norace
 func (w *World) RecHook(node int, note string, val any) {
 	w.rec(&Rec{Kind: "hook", C: -1, Conn: -1, Op: -1, Node: node, Note: note, Val: val})
 }
 
+//go:norace
 func (w *World) after(d time.Duration, name string, fn func()) *tev {
 	w.evSeq++
 	e := &tev{at: time.Now().Add(d), seq: w.evSeq, name: name, fn: fn}
@@ -156,10 +179,30 @@ func (w *World) after(d time.Duration, name string, fn func()) *tev {
 	return e
 }
 
+// caller wraps the body of a task that calls into the broker from outside (API caller, Stop, observer): an
+// embedding program calls the services of a server it has started, so the task is ordered after the
+// moment the broker last asked its listener for a connection (race detector only; no effect otherwise).
+//
+//go:norace
+func (w *World) caller(f func()) func() {
+	return func() {
+		for _, nd := range w.Nodes {
+			if nd.Ln != nil {
+				simrt.RaceAcquire(unsafe.Pointer(&nd.Ln.HB))
+			}
+		}
+		f()
+	}
+}
+
 // After schedules fn as a simulator event d from now (for simulated services attached to the world).
+//
+//go:norace
 func (w *World) After(d time.Duration, name string, fn func()) { w.after(d, name, fn) }
 
 // brokerConfig builds the gmqtt configuration of a node from the plan.
+//
+//go:norace
 func (w *World) brokerConfig(n int) config.Config {
 	b := w.Plan.Broker
 	cfg := config.DefaultConfig()
@@ -211,6 +254,7 @@ func (w *World) brokerConfig(n int) config.Config {
 	return cfg
 }
 
+//go:norace
 func (w *World) baseHooks(n int) server.Hooks {
 	type drop = DropInfo
 	return server.Hooks{
@@ -248,6 +292,8 @@ type DropInfo struct {
 }
 
 // StartNode creates and runs broker node n as a task.
+//
+//go:norace
 func (w *World) StartNode(n int) {
 	nd := w.Nodes[n]
 	nd.Gen++
@@ -286,6 +332,8 @@ func (w *World) StartNode(n int) {
 }
 
 // StopNode issues Stop on node n as a task.
+//
+//go:norace
 func (w *World) StopNode(n int, timeout time.Duration, done func()) {
 	nd := w.Nodes[n]
 	if nd.Srv == nil || nd.StopIssued {
@@ -297,7 +345,7 @@ func (w *World) StopNode(n int, timeout time.Duration, done func()) {
 	nd.StopIssued = true
 	nd.StopStep = w.S.StepCnt
 	w.rec(&Rec{Kind: "note", C: -1, Conn: -1, Op: -1, Node: n, Note: "stop issued"})
-	w.S.Go(fmt.Sprintf("stop%d", n), func() {
+	w.S.Go(fmt.Sprintf("stop%d", n), w.caller(func() {
 		ctx, cancel := context.WithTimeout(context.Background(), timeout)
 		defer cancel()
 		err := nd.Srv.Stop(ctx)
@@ -307,12 +355,14 @@ func (w *World) StopNode(n int, timeout time.Duration, done func()) {
 		if done != nil {
 			done()
 		}
-	})
+	}))
 }
 
 // ---------------------------------------------------------------- simrt.Driver
 
 // Observe drains broker output into the client state machines and evaluates invariants.
+//
+//go:norace
 func (w *World) Observe(step int) error {
 	for _, c := range w.conns {
 		if c.dead {
@@ -334,6 +384,8 @@ func (w *World) Observe(step int) error {
 var errInvariant = errors.New("invariant violated")
 
 // Due returns the enabled simulator events.
+//
+//go:norace
 func (w *World) Due(now time.Time) (due []*simrt.Event, next time.Time) {
 	// compact cancelled / consumed events
 	live := w.events[:0]
@@ -375,6 +427,8 @@ func (w *World) Due(now time.Time) (due []*simrt.Event, next time.Time) {
 }
 
 // Done is asked when nothing is runnable and nothing is due.
+//
+//go:norace
 func (w *World) Done() bool {
 	if w.aborted {
 		return true
@@ -399,9 +453,12 @@ func (w *World) Done() bool {
 	return false
 }
 
+//go:norace
 func (w *World) kick() { w.after(0, "kick", func() {}) }
 
 // pendingFuture counts scheduled simulator events other than the phase deadline.
+//
+//go:norace
 func (w *World) pendingFuture() int {
 	n := 0
 	for _, e := range w.events {
@@ -417,6 +474,7 @@ func (w *World) pendingFuture() int {
 	return n + w.apiBusy
 }
 
+//go:norace
 func (w *World) phaseComplete() bool {
 	if w.phase < 0 {
 		return true
@@ -429,6 +487,7 @@ func (w *World) phaseComplete() bool {
 	return true
 }
 
+//go:norace
 func (w *World) endPhase() {
 	if w.phase >= 0 {
 		if w.phaseDL != nil {
@@ -456,6 +515,7 @@ func (w *World) endPhase() {
 	w.startPhase()
 }
 
+//go:norace
 func (w *World) startPhase() {
 	if w.phase >= len(w.Plan.Phases) {
 		return
@@ -507,6 +567,8 @@ type actor struct {
 }
 
 // pump issues the actor's next operation when the previous one allows it.
+//
+//go:norace
 func (w *World) pump(a *actor) {
 	for a.cur < len(a.q) {
 		o := a.q[a.cur]
@@ -531,6 +593,7 @@ func (w *World) pump(a *actor) {
 	}
 }
 
+//go:norace
 func (w *World) finish(o *OpRec, result string) {
 	if o.Done {
 		return
@@ -547,6 +610,7 @@ func (w *World) finish(o *OpRec, result string) {
 	}
 }
 
+//go:norace
 func (w *World) complete(o *OpRec, step int) {
 	if o.Done {
 		return
@@ -557,6 +621,8 @@ func (w *World) complete(o *OpRec, step int) {
 }
 
 // finalStep drives the end-of-run sequence; returns true when the run is over.
+//
+//go:norace
 func (w *World) finalStep() bool {
 	switch w.final {
 	case 0:
@@ -642,22 +708,41 @@ type Outcome struct {
 }
 
 // Run executes one plan inside a synctest bubble.
+//
+//go:norace
 func Run(t *testing.T, plan *Plan, setup *Setup) (out *Outcome) {
 	out = &Outcome{}
 	if setup != nil && setup.Cleanup != nil {
 		defer setup.Cleanup()
 	}
-	defer func() {
-		if r := recover(); r != nil {
-			msg := fmt.Sprint(r)
-			if len(msg) >= 8 && msg[:8] == "deadlock" {
-				out.Leaked = true
-				return
+	body := func(t *testing.T) {
+		defer func() {
+			if r := recover(); r != nil {
+				msg := fmt.Sprint(r)
+				if len(msg) >= 8 && msg[:8] == "deadlock" {
+					out.Leaked = true
+					return
+				}
+				panic(r)
 			}
-			panic(r)
-		}
-	}()
-	synctest.Test(t, func(t *testing.T) {
+		}()
+		synctest.Test(t, func(t *testing.T) { runBubble(t, plan, setup, out) })
+	}
+	if simrt.RaceOn {
+		// a race report makes the testing package fail the bubble's T and FailNow its parent: give it a
+		// parent of its own so that the worker survives and the outcome is still returned
+		t.Run("run", body)
+	} else {
+		body(t)
+	}
+	return out
+}
+
+//go:norace
+func runBubble(t *testing.T, plan *Plan, setup *Setup, out *Outcome) {
+	{
+		simrt.RaceDisable() // the root goroutine is the simulator: its synchronisation is not the system's
+		defer simrt.RaceEnable()
 		maxSteps := plan.Sched.MaxSteps
 		if maxSteps == 0 {
 			maxSteps = 300000
@@ -716,21 +801,24 @@ func Run(t *testing.T, plan *Plan, setup *Setup) (out *Outcome) {
 		out.Probes = w.Probes
 		out.Faults["sched.switch"] = s.Switches
 		s.Teardown()
-	})
-	return out
+	}
 }
 
 // Observer runs f as an exclusive observer task (read-only access to broker services) and waits for it
 // by returning a completion flag; use from API ops (api_custom) rather than from the root goroutine.
+//
+//go:norace
 func (w *World) Observer(name string, f func()) {
 	w.apiBusy++
-	w.S.GoExclusive("obs:"+name, func() {
+	w.S.GoExclusive("obs:"+name, w.caller(func() {
 		defer func() { w.apiBusy-- }()
 		f()
-	})
+	}))
 }
 
 // Pkts returns all packets the given client received (kind rx), in order.
+//
+//go:norace
 func (h *History) Pkts(c int, kind string) []*Rec {
 	var r []*Rec
 	for _, x := range h.Recs {
